@@ -62,6 +62,9 @@ def WFO(node, parent, ref, seg, i=0):
 
 
 ATTR = "yaml_path._escaped[segment_index][1]"
+REQ = "call_event('required')"
+SEGC = "call_event('segment')"
+TRV = "call_event('traverse')"
 KW = {"kw_translated_path": "YAMLPath", "kw_ancestry": "List[Tuple[Any, Any]]"}
 KWP = dict(KW, kw_parent="Any", kw_parentref="Any")
 NC = "Union[NodeCoords, list]"
@@ -293,13 +296,33 @@ class MatchAllUnfiltered:
     opts = dict(SEG_INV, yields=NC)
 
 
-@contract(PR + "_get_nodes_by_match_all_filtered", props=["C15"])
+def PROBE(child, ref, seg):
+    """One pass of the filtered wildcard: the NEXT segment is tried on this child, once, with the child's own coordinates;
+    the child is yielded at most once, with well-formed coordinates (that it is yielded exactly when the probe yields
+    something is for-loop semantics: the yield is the first statement of the probe loop's body, followed by break)."""
+    return WFY(child, "data", ref, seg) + [
+        "called('segment') == 1 and %s[1] is %s and %s[2] is data and same(%s[3], %s)" % (SEGC, child, SEGC, SEGC, ref),
+        "path_is(%s[4], translated_path, %s) and extended_by(%s[5], ancestry, (data, %s))" % (SEGC, seg, SEGC, ref)]
+
+
+@contract(PR + "_get_nodes_by_match_all_filtered", props=["C15", "C01", "C02"])
 class MatchAllFiltered:
+    """`*` followed by further segments: every child of a hash / sequence is probed with the next segment (PROBE) and
+    yielded at most once; nothing else is yielded; scalars and sets yield nothing."""
     params = dict(KWP, yaml_path="YAMLPath", segment_index="int")
     assume_fields = PATH_FIELDS
     requires = PARSED + ["segment_index + 1 < seg_count(yaml_path)"]
     inline = [YP + "escaped", YP + "unescaped"]
     raises = ["YAMLPathException"]
+    ensures = [
+        "implies(isinstance(data, dict), looped('for key, val in list(data.items())'))",
+        "implies(isinstance(data, list), looped('for idx, ele in enumerate(data)'))",
+        "implies(not isinstance(data, (dict, list)), len(out) == 0)",
+    ]
+    loops = {
+        "for key, val in list(data.items())": {"sole_yielder": True, "body_ensures": PROBE("val", "key", ESC % "key")},
+        "for idx, ele in enumerate(data)": {"sole_yielder": True, "body_ensures": PROBE("ele", "idx", "'[{}]'.format(idx)")},
+    }
     opts = dict(SEG_INV, yields=NC)
 
 
@@ -315,12 +338,44 @@ class MatchAll:
 
 @contract(PR + "_get_nodes_by_traversal", props=["C15"])
 class ByTraversal:
+    """`**`, one level of its recursion (the induction is over the finite, acyclic subtree).  In both modes, for every
+    child of a hash / sequence: ONE recursive call on the child with the child's own coordinates (parent, reference,
+    path + rendered reference, ancestry + (parent, reference)), whose results are relayed unchanged and in order, and
+    nothing else is yielded in that pass.  As the last segment: a null and a scalar leaf yield exactly themselves with
+    the coordinates they were given; a set yields its members with well-formed coordinates.  (With a following segment,
+    the node itself is yielded at most once before its children are visited, when the following segment matches on
+    it: safety only.)"""
     params = dict(KWP, yaml_path="YAMLPath", segment_index="int")
     assume_fields = PATH_FIELDS
     requires = PARSED
     inline = [YP + "escaped", YP + "unescaped"]
     raises = ["YAMLPathException"]
-    opts = dict(SEG_INV, yields="NodeCoords", decreases="size of the (finite, acyclic) subtree under `data`")
+    ensures = [
+        "implies(segment_index + 1 == seg_count(yaml_path) and data is None, len(out) == 1 and out[0].node is None and same(out[0].parent, parent) "
+        "and same(out[0].parentref, parentref) and out[0].path is translated_path and out[0].ancestry is ancestry)",
+        "implies(segment_index + 1 == seg_count(yaml_path) and data is not None and not isinstance(data, (dict, list, CommentedSet, set)), "
+        "len(out) == 1 and out[0].node is data and same(out[0].parent, parent) and same(out[0].parentref, parentref) "
+        "and out[0].path is translated_path and out[0].ancestry is ancestry)",
+    ]
+    loops = {
+        "for key, val in list(data.items())": {"body_ensures": [
+            "called('traverse') == 1 and %s[1] is val and %s[2] is data and same(%s[3], key)" % (TRV, TRV, TRV),
+            "path_is(%s[4], translated_path, %s) and extended_by(%s[5], ancestry, (data, key))" % (TRV, ESC % "key", TRV),
+            "len(yielded) == 0"]},
+        "for idx, ele in enumerate(data)": {"body_ensures": [
+            "called('traverse') == 1 and %s[1] is ele and %s[2] is data and same(%s[3], idx)" % (TRV, TRV, TRV),
+            "path_is(%s[4], translated_path, '[{}]'.format(idx)) and extended_by(%s[5], ancestry, (data, idx))" % (TRV, TRV),
+            "len(yielded) == 0"]},
+        "for node_coord in self._get_nodes_by_traversal(val, yaml_path, segment_index, parent=data, parentref=key, "
+        "translated_path=next_translated_path, ancestry=next_ancestry)": {
+            "sole_yielder": True, "body_ensures": ["len(yielded) == 1 and yielded[0] is node_coord"]},
+        "for node_coord in self._get_nodes_by_traversal(ele, yaml_path, segment_index, parent=data, parentref=idx, "
+        "translated_path=next_translated_path, ancestry=next_ancestry)": {
+            "sole_yielder": True, "body_ensures": ["len(yielded) == 1 and yielded[0] is node_coord"]},
+        "for ele in data": {"body_ensures": WF("ele", "data", "ele", ESC % "ele")},
+    }
+    opts = dict(SEG_INV, yields="NodeCoords", decreases="size of the (finite, acyclic) subtree under `data`",
+                event="('traverse', data, kw_parent, kw_parentref, kw_translated_path, kw_ancestry)")
 
 
 @contract(PR + "_get_nodes_by_path_segment", props=["C15"])
@@ -359,10 +414,6 @@ class KeywordParameters:
                      "self._parameters_parsed": "bool", "self._lparameters": "List[str]"}
     raises = ["ValueError"]
     opts = {"returns": "List[str]"}
-
-
-REQ = "call_event('required')"
-SEGC = "call_event('segment')"
 
 
 @contract(PR + "_get_required_nodes", props=["C15", "C01", "C02"])
